@@ -136,8 +136,12 @@ def selector_rule(R, zs):
                     'the two selectors are compared on is not the family they receive')
         return
 
+    from .pyeval import PyEval, PObj, Raised as PRaised
+    ok_, slots = PyEval(R.cfg).class_attr(zs, 'Transition', '__slots__')
+    if not ok_ or not {'startEpochSecond', 'abbrev', 'transitionTime', 'isActive'} <= set(slots):
+        raise AnalysisError('anchor vanished: Transition.__slots__ of %s' % zs.rel)
+
     def run(cls, statuses):
-        ranks = {}
         items = []
         lo, mid, hi = 0, START, 2 * START
         for i, st in enumerate(statuses):
@@ -152,16 +156,22 @@ def selector_rule(R, zs):
             else:
                 hi += 1
                 t = hi
-            items.append(AObj({'status': st, 'transitionTime': t, 'originalTransitionTime': None, 'isActive': None}, oid='t%d' % i, cls='Transition'))
-        match = AObj({'startDateTime': START}, oid='match', cls='ZoneMatch')
-        ev = AEval(module=zs, intrinsics=intr)
+            # every declared field exists (copy() walks __slots__); two fields the selectors do not touch carry the status and the tag
+            a_ = {s_: None for s_ in slots}
+            a_.update({'startEpochSecond': st, 'transitionTime': t, 'abbrev': 't%d' % i})
+            items.append(PObj(zs, 'Transition', a_))
+        match = PObj(zs, 'ZoneMatch', {'startDateTime': START})
+        ev = PyEval(R.cfg, max_steps=200000)
+        # the comparison against the match is abstracted to the status it returns, date tuples to ranks
+        ev._modenv[(zs.rel, '_compare_transition_to_match')] = lambda tr_, m_: tr_.attrs['startEpochSecond']
+        ev._modenv[(zs.rel, '_compare_date_tuple')] = lambda a_, b_: (a_ > b_) - (a_ < b_)
         try:
-            out = ev.call_function(cls + '.select_active_transitions', [list(items), match], recv=AObj({'debug': False}, cls=cls))
-        except Raised as r:
+            out = ev.call(zs, cls + '.select_active_transitions', [list(items), match], recv=PObj(zs, cls, {'debug': False}))
+        except PRaised as r:
             return ('raise', r.what[:60])
         if not isinstance(out, list):
             return ('?', repr(out))
-        return ('ok', tuple(sorted((o.oid, o.attrs['transitionTime']) for o in out)))
+        return ('ok', tuple(sorted((o.attrs.get('abbrev'), o.attrs['transitionTime']) for o in out)))
 
     n = 0
     diffs = []
@@ -190,53 +200,44 @@ def finder_rule(R, zs):
     through their IR on a family of small policies (one or two recurring rules, FROM/TO years 0..3, months 3/10, wall-clock
     suffix) and of match intervals clipped the way init_for_year clips them around year 2.  Only the calendar resolution
     of a rule's day (calc_day_of_month, decided by C18) and the Transition constructor are abstracted."""
-    from .aeval import AEval, AObj, Raised
-    from collections import namedtuple
     import itertools
     thorough = R.cfg.tier == 'thorough'
     R.rule('R6', 'CandidateFinderBasic and CandidateFinderOptimized lead to the same selected transitions on every small policy and match interval', floor=500)
-    DT = namedtuple('DateTuple', 'y M d ss f')
-
-    def mk_transition(ev, recv, args):
-        m = args[0]
-        o = AObj(dict(m.attrs), cls='Transition')
-        for k in ('transitionTime', 'transitionTimeS', 'transitionTimeU', 'originalTransitionTime', 'zoneRule', 'isActive',
-                  'startEpochSecond', 'abbrev', 'untilDateTimeOfTransition', 'startDateTimeOfTransition'):
-            o.attrs.setdefault(k, None)
-        return o
-
-    def upd(ev, recv, args):
-        recv.attrs.update(args[0])
-        if 'transitionTime' in args[0]:
-            recv.oid = '%s@%d' % (args[0]['zoneRule'].oid, args[0]['transitionTime'].y)
-
-    def gtt(ev, recv, args):
-        year, rule = args
-        return DT(year, rule.attrs['inMonth'], rule.attrs['onDayOfMonth'], rule.attrs['atSeconds'], 'w')
-    intr = {'Transition': mk_transition, 'update': upd, '_get_transition_time': gtt,
-            'logging.info': lambda ev, r, a: None, 'info': lambda ev, r, a: None}
+    from .pyeval import PyEval, PObj, Raised as PRaised
+    BASE = 2000
     years = range(0, 4)
     months = (3, 10, 12) if not thorough else (1, 2, 3, 10, 11, 12)
     shapes = [(f, t, m) for f in years for t in years if f <= t for m in months]
-    rules1 = [(s,) for s in shapes]
-    rules2 = [p for p in itertools.combinations(shapes, 2) if p[0][2] != p[1][2]]
+    ANCHOR = (-BASE, -BASE, 1)          # the anchor rule the compiler adds: year 0, January 1
+    rules1 = [(s,) for s in shapes] + [(ANCHOR,)]
+    rules2 = [p for p in itertools.combinations(shapes, 2) if p[0][2] != p[1][2]] + [(ANCHOR, s) for s in shapes] + [(s, ANCHOR) for s in shapes if s[0] >= 2]
     starts = [(1, 12, 1), (2, 1, 1), (2, 3, 1), (2, 3, 10), (2, 10, 1)]
     untils = [(2, 3, 1), (2, 3, 10), (2, 10, 1), (3, 1, 1), (3, 2, 1)]
     matches = [(s, u) for s in starts for u in untils if s < u]
     loc = zs.fn('CandidateFinderOptimized.find_candidate_transitions').loc
+    pev = PyEval(R.cfg, max_steps=400000000)
+    dt_cls = pev.global_name(zs, 'DateTuple', loc)
+
+    def DT(y, M, d):
+        return pev.apply(dt_cls, [BASE + y, M, d, 0, 'w'], {})
 
     def pipeline(cls, pol, mt):
-        rules = [AObj({'fromYear': f, 'toYear': t, 'inMonth': m, 'onDayOfWeek': 0, 'onDayOfMonth': 1, 'atSeconds': 0, 'atTimeSuffix': 'w'},
-                      oid='r%d' % i, cls='ZoneRuleCooked') for i, (f, t, m) in enumerate(pol)]
-        match = AObj({'startDateTime': DT(mt[0][0], mt[0][1], mt[0][2], 0, 'w'), 'untilDateTime': DT(mt[1][0], mt[1][1], mt[1][2], 0, 'w'), 'zoneEra': None},
-                     oid='match', cls='ZoneMatch')
-        ev = AEval(module=zs, intrinsics=intr)
         try:
-            cands = ev.call_function(cls + '.find_candidate_transitions', [match, rules], recv=AObj({'debug': False}, cls=cls))
-            out = ev.call_function('ActiveSelectorInPlace.select_active_transitions', [cands, match], recv=AObj({'debug': False}, cls='ActiveSelectorInPlace'))
-        except Raised as r:
+            rules = [pev.instantiate(zs, 'ZoneRuleCooked', [{'fromYear': BASE + f, 'toYear': BASE + t, 'inMonth': m, 'onDayOfWeek': 0, 'onDayOfMonth': 1, 'atSeconds': 0,
+                                                             'atTimeSuffix': 'w', 'deltaSeconds': 3600 if i == 0 else 0, 'letter': 'D' if i == 0 else 'S'}])
+                     for i, (f, t, m) in enumerate(pol)]
+            match = pev.instantiate(zs, 'ZoneMatch', [{'startDateTime': DT(*mt[0]), 'untilDateTime': DT(*mt[1]), 'zoneEra': None}])
+            cands = pev.call(zs, cls + '.find_candidate_transitions', [match, rules], recv=pev.instantiate(zs, cls, [False]))
+            out = pev.call(zs, 'ActiveSelectorInPlace.select_active_transitions', [cands, match], recv=pev.instantiate(zs, 'ActiveSelectorInPlace', [False]))
+        except PRaised as r:
             return ('raise', r.what[:60])
-        return ('ok', tuple(sorted((o.oid, tuple(o.attrs['transitionTime'])[:3]) for o in out)))
+        res = []
+        for o in out:
+            ri = [k for k, r_ in enumerate(rules) if r_ is o.attrs.get('zoneRule')]
+            tt = o.attrs.get('transitionTime')
+            ot = o.attrs.get('originalTransitionTime')
+            res.append(('r%s@%s' % (ri[0] if ri else '?', (ot or tt)[0] - BASE), (tt[0] - BASE, tt[1], tt[2])))
+        return ('ok', tuple(sorted(res)))
     n = 0
     diffs = []
     for pol in rules1 + rules2:
